@@ -907,6 +907,17 @@ func runC06(r *vk.Run) {
 			if _, dup := o.Vals[k]; dup {
 				continue
 			}
+			if rng.Chance(1, 6) {
+				// a field that is ignored anyway (not a string) may have any name
+				k = vk.Pick(rng, []string{"status code", "9lives", "a-b", "", "x/y", "ünï"})
+				if _, dup := o.Vals[k]; dup {
+					continue
+				}
+				o.Keys = append(o.Keys, k)
+				o.Vals[k] = vk.Pick(rng, []any{jNum("200"), true, nil, jNum("1.5")})
+				c.Count("ignored_fields_with_odd_names", 1)
+				continue
+			}
 			o.Keys = append(o.Keys, k)
 			if rng.Chance(1, 5) {
 				o.Vals[k] = jNum("7") // non-string: ignored
